@@ -16,7 +16,9 @@ RULE = ("real calls of maverage.deque/recursive/fir, accumulate.accumulate/func/
         "one run per (strategy, size, length) covers every sample value and every `zero`); inputs of length 0..12 from a "
         "rational pool that contains the thresholds (clip limits, +-hysteresis, multiples of step/2); sizes 0..6, lags "
         "0..5 and dyadic fractional lags, all clip limit combinations incl. None and high<low, hysteresis {0,1/2,2}, "
-        "first_sign {-1,0,1,...}, (max_delta, step) grid with step>0 plus step<=0 as malformed stream; exhaustive small "
+        "first_sign {-1,0,1,...}, (max_delta, step) grid with step>0 plus step<=0 as malformed stream; multi-use histories: ONE "
+        "tool object (maverage(size) callable, amdf callable, filter object, function) applied to 2-3 inputs with the lazy outputs "
+        "pulled in exhaustive (short inputs) / seeded interleavings, every stream checked against the formula on its own input; exhaustive small "
         "domains for clip/zcross/unwrap/accumulate; non-trivial = input longer than the window with zero != 0 / a "
         "detected crossing with hysteresis / an unwrapped jump / a clipped sample")
 EXHAUSTIVE = {"quick": False, "thorough": False}
@@ -125,7 +127,7 @@ def nt_mav(c, o):
 
 # ------------------------------------------------------------------ linear tools on symbolic samples
 def gen_lin(tier, rng):
-  maxlen = 9 if tier == "quick" else 13
+  maxlen = 8 if tier == "quick" else 13
   for size in range(0, 7 if tier == "quick" else 10):
     for n in range(0, maxlen):
       for s in MAVS:
@@ -264,7 +266,7 @@ CUTOFFS = [None, 0.3, 1.0, math.pi, math.pi / 2, 0.01, 0.0]
 
 def gen_env_of(s):
   def gen_env(tier, rng):
-    n = 6 if tier == "quick" else 50
+    n = 5 if tier == "quick" else 50
     for ci, cutoff in enumerate(CUTOFFS):
       if cutoff == 0.0 and s == "rms":
         continue  # the all-zero float output 0.0 ** .5 is a float, not a symbolic root
